@@ -226,6 +226,9 @@ func (s *sim) admin(in *simInst, b worker.IdleBehavior) {
 	s.nAdmin++
 	pool := inc.pool
 	id := in.id
+	// an operator overriding the idle behaviour takes responsibility for the instance: the
+	// "no work after a broken report" clause is re-armed by the next report the pool receives
+	delete(inc.brokenSeen, string(id))
 	s.logf("admin %s %s", b, id)
 	s.w.SpawnOn(inc.node, fmt.Sprintf("%s.admin%d", inc.node, s.nAdmin), func() { pool.SetIdleBehavior(id, b) })
 }
